@@ -125,7 +125,7 @@ func verifC10Call() {
 
 	// callback behaviours are symbolic so that they fork only when a callback actually runs
 	typeBehaviour := vInt("type-behaviour", 0, 2)
-	implBehaviour := vInt("impl-behaviour", 0, 3)
+	implBehaviour := vInt("impl-behaviour", 0, 4)
 	withRefine := vBool("refine")
 	typeRan, typeAccepted, implRan := false, false, false
 	var typeArgs, implArgs []cty.Value
@@ -154,6 +154,9 @@ func verifC10Call() {
 			panic("impl callback panics")
 		case 3:
 			return cty.NumberIntVal(1), nil // does not conform to the checked return type
+		case 4:
+			// an unknown result that already carries a refinement (the call's own RefineResult comes on top)
+			return cty.UnknownVal(cty.String).Refine().StringPrefixFull("re").NewValue(), nil
 		}
 		return cty.StringVal("result"), nil
 	}
@@ -228,7 +231,7 @@ func verifC10Call() {
 	// success
 	vAssert("success-needs-accepting-typecheck-or-dynamic", typeAccepted || res.Type() == cty.DynamicPseudoType)
 	if implRan {
-		vAssert("nonconforming-result-never-returned", implBehaviour == 0)
+		vAssert("nonconforming-result-never-returned", implBehaviour == 0 || implBehaviour == 4)
 	}
 	// marks of arguments the function does not handle itself are on the result
 	_, resMarks := res.Unmark()
